@@ -204,6 +204,16 @@ let handle (req : sx) : string =
       (match sprint t with
        | Err e -> "PRINT_ERR " ^ exn_str e
        | Ok s -> "OK " ^ hx s ^ " den=" ^ (match pyden t (scope_of sc) with Ok v -> z_bin v | Err e -> exn_str e))
+  | L [A "sshape"; L axes] ->
+      let axis_of = function
+        | L [A "expr"; t] -> SAExpr (sym_of t)
+        | L [A "const"; n; v] -> SAConst (str_of n, z_of v)
+        | A "anon" -> SAAnon
+        | L [A "star"; n] -> SAStar (str_of n)
+        | _ -> failwith "axis" in
+      (match print_sshape (List.map axis_of axes) with
+       | Err e -> "PRINT_ERR " ^ exn_str e
+       | Ok s -> "OK " ^ hx s)
   | L [A "env"; d; g] ->
       (match read_env (opt_of str_of d) (opt_of str_of g) with
        | ImportFails -> "IMPORT_FAILS" | ImportOk (x, y) -> "OK disable=" ^ b x ^ " debug=" ^ b y)
